@@ -40,7 +40,17 @@ fn main() {
     // panics of the code under test are observations; keep the output readable
     let default_hook = std::panic::take_hook();
     std::panic::set_hook(Box::new(move |info| {
-        if !drive::CATCHING.with(|c| c.get()) {
+        let on_runtime_worker = std::thread::current()
+            .name()
+            .map(|n| n.starts_with("tokio-rt-worker"))
+            .unwrap_or(false);
+        if on_runtime_worker {
+            // the VM task spawned by resumable_verify_with_signal panicked: an observation
+            signal::TASK_PANICS.fetch_add(1, Ordering::SeqCst);
+            if let Ok(mut g) = signal::LAST_TASK_PANIC.lock() {
+                *g = info.to_string();
+            }
+        } else if !drive::CATCHING.with(|c| c.get()) {
             default_hook(info);
         }
     }));
@@ -69,6 +79,31 @@ fn main() {
     let mut all_cases = cases::build(args.seed, thorough);
     if let Some(f) = args.get_str("only") {
         all_cases.retain(|c| c.name.contains(f));
+    }
+    if let Some(path) = &args.replay {
+        // replay of a recorded violation: the witness names the case; chunked witnesses also
+        // carry the per-chunk limits that were used
+        let j: Value = serde_json::from_str(&std::fs::read_to_string(path).expect("replay file"))
+            .expect("replay json");
+        let w = &j["witness"];
+        let name = w["case"].as_str().unwrap_or("").to_string();
+        let limits: Vec<u64> = w["observed"]["limits_head"]
+            .as_array()
+            .map(|a| a.iter().filter_map(|x| x.as_u64()).collect())
+            .unwrap_or_default();
+        println!("replay {}: case {name}", path.display());
+        println!("recorded: {}", serde_json::to_string(&w["observed"]).unwrap_or_default());
+        for case in all_cases.iter().filter(|c| c.name == name) {
+            let pause = w["observed"]["mode"].as_str() == Some("pause");
+            let v = env::build_verifier(&consensus, &case.rtx, case.epoch, !pause);
+            println!("reference: {:?}", drive::verify(&v, case.ref_budget));
+            if !limits.is_empty() {
+                drive::trace_chunks(&v, &limits);
+            } else {
+                println!("(no chunk limits recorded: re-run with  only='{name}'  to drive this case again)");
+            }
+        }
+        return;
     }
     if args.extra.contains_key("list") {
         // debug: print the reference of every selected case
@@ -174,6 +209,9 @@ fn main() {
                     let case = &cases[i];
                     let r = refs[i].as_ref().unwrap();
                     let t0 = Instant::now();
+                    let mut lc = Local::default();
+                    let body = std::panic::catch_unwind(std::panic::AssertUnwindSafe(|| {
+                    let l = &mut lc;
                     let mut rng = Rng::new(seed ^ fnv1a(case.name.as_bytes()));
                     let cx = CaseCtx {
                         case,
@@ -183,13 +221,13 @@ fn main() {
                     };
                     let v = env::build_verifier(&consensus, &case.rtx, case.epoch, true);
                     // (b) budgets
-                    drive::budget_phase(&cx, &v, &mut rng, &mut l, thorough);
+                    drive::budget_phase(&cx, &v, &mut rng, l, thorough);
                     // (c) signals
-                    let sg = signal::signal_phase(&cx, &rt, &v, n_signal, &mut rng, &mut l);
+                    let sg = signal::signal_phase(&cx, &rt, &v, n_signal, &mut rng, l);
                     // (a) chunked
                     let (_, state_size, _, vms) = drive::calibrate(&v, r.c / 7 + 1);
                     let plan = drive::plan(r, thorough, work, state_size, vms, &mut rng);
-                    let st = drive::chunk_phase(&cx, &v, "chunk", &plan, &mut rng, &mut l);
+                    let st = drive::chunk_phase(&cx, &v, "chunk", &plan, &mut rng, l);
                     let mut runs = st.runs;
                     let mut runs_suspended = st.runs_suspended;
                     let mut suspensions = st.suspensions;
@@ -226,7 +264,7 @@ fn main() {
                             plan_p.exhaustive_const = false;
                         }
                         plan_p.scheds.truncate(keep);
-                        let sp = drive::chunk_phase(&cx, &vp, "pause", &plan_p, &mut rng, &mut l);
+                        let sp = drive::chunk_phase(&cx, &vp, "pause", &plan_p, &mut rng, l);
                         runs += sp.runs;
                         runs_suspended += sp.runs_suspended;
                         suspensions += sp.suspensions;
@@ -253,6 +291,11 @@ fn main() {
                         "signal_runs": sg.runs, "stop_interrupted": sg.interrupted,
                         "wall_s": (t0.elapsed().as_secs_f64() * 100.0).round() / 100.0,
                     }));
+                    }));
+                    if body.is_err() {
+                        lc.inconclusive(&format!("harness thread panicked while driving {}", case.name));
+                    }
+                    l.merge(lc);
                 }
                 locals.lock().unwrap().push(l);
                 let _ = done_tx.send(());
@@ -308,6 +351,14 @@ fn main() {
         report.distinct(d);
     }
     report.count_n("pauses_observed", signal::PAUSES.load(Ordering::SeqCst));
+    let task_panics = signal::TASK_PANICS.load(Ordering::SeqCst);
+    if task_panics > 0 {
+        report.count_n("signal_vm_task_panics", task_panics);
+        report.note(
+            "last_signal_vm_task_panic",
+            json!(signal::LAST_TASK_PANIC.lock().map(|g| g.clone()).unwrap_or_default()),
+        );
+    }
 
     // programs x versions actually covered
     let mut programs: BTreeMap<String, BTreeSet<String>> = BTreeMap::new();
